@@ -5,7 +5,7 @@
    through MultiMarker.of / MarkerUnion.of.  Exclusion and reduction by a Python range are judged on the
    implementation by the oracle. *)
 From Coq Require Import List Bool NArith String.
-From PC Require Import Base.Result Model.Generic Model.Marker Model.MarkerAlg Proofs.MarkerProofs Proofs.MarkerAlgProofs.
+From PC Require Import Base.Result Model.Generic Model.Marker Model.MarkerAlg Proofs.MarkerProofs Proofs.MarkerAlgProofs Proofs.StringClass.
 Import ListNotations.
 
 Theorem C17_only_weakens : forall E names m, beval E m = true -> beval E (only_raw names m) = true.
@@ -22,3 +22,9 @@ Print Assumptions C17_only_simplified_partial.
 Theorem C17_class_exists : forall E, clause_class E demo_R.
 Proof. exact demo_class. Qed.
 Print Assumptions C17_class_exists.
+
+(* no premise left on markers over '==' / '!=' comparisons of string variables with plain values (see C07) *)
+Theorem C17_only_string_markers : forall E fuel st names m r, G (SR E) m -> only fuel st names m = Ok r ->
+  (beval E m = true -> beval E r = true) /\ G (SR E) r.
+Proof. exact string_only. Qed.
+Print Assumptions C17_only_string_markers.
